@@ -69,22 +69,35 @@ def rval(kind, v):
     return ["none", 0] if d == -1 else ["val", d]
 
 
+class _SK(str):
+    """a str subclass used as a key"""
+
+
+def _mapping(d, rnd):
+    """the same mapping as a dict, an OrderedDict, a UserDict or a read-only proxy"""
+    import collections
+    import types
+    return rnd.choice([lambda: d, lambda: collections.OrderedDict(d), lambda: collections.UserDict(d), lambda: types.MappingProxyType(d)])()
+
+
 def apply(kind: Kind, obj, o, rnd):
     """Run one abstract operation on the real object. Returns (obj, result)."""
     op = o["op"]
     k = S(o["k"]) if o["k"] else ""
     if rnd.random() < 0.3 and op not in ("new", "update"):
         k = k.encode()
+    elif rnd.random() < 0.15 and op not in ("new", "update"):
+        k = _SK(k)                                         # a str subclass is a string
     v = kind.enc(o["v"])
-    pairs = [(S(p[0]), kind.enc(p[1])) for p in o["pairs"]]
+    pairs = [(S(p[0]) if rnd.random() < 0.8 else _SK(S(p[0])), kind.enc(p[1])) for p in o["pairs"]]
     kw = {S(p[0]): kind.enc(p[1]) for p in o["kw"]}
     try:
         if op == "new":
             form = rnd.random()
             if form < 0.5 or len({p[0] for p in pairs}) != len(pairs):
-                obj = kind.cls(pairs, **kw)
+                obj = kind.cls(pairs if form < 0.35 else (p for p in pairs), **kw)      # a list or a one-shot generator of pairs
             else:
-                obj = kind.cls(dict(pairs), **kw)
+                obj = kind.cls(_mapping(dict(pairs), rnd), **kw)
             return obj, ["none", 0]
         if op == "getitem":
             return obj, rval(kind, obj[k])
@@ -106,10 +119,11 @@ def apply(kind: Kind, obj, o, rnd):
             r = obj.setdefault(k) if (o["v"] == -1 and rnd.random() < 0.5) else obj.setdefault(k, v)
             return obj, rval(kind, r)
         if op == "update":
-            if rnd.random() < 0.5 or len({p[0] for p in pairs}) != len(pairs):
-                obj.update(pairs, **kw)
+            form = rnd.random()
+            if form < 0.5 or len({p[0] for p in pairs}) != len(pairs):
+                obj.update(pairs if form < 0.3 else (tuple(pairs) if form < 0.4 else (p for p in pairs)), **kw)
             else:
-                obj.update(dict(pairs), **kw)
+                obj.update(_mapping(dict(pairs), rnd), **kw)
             return obj, ["none", 0]
         if op == "copy":
             c = obj.copy()
